@@ -1,7 +1,11 @@
 """Shared by the engine properties (C02 C05 C06 C07 C10 C11 C14 C16): scenario runs under the deterministic scheduler
 and the property oracles, each evaluated on what the real Commander did (independent of the Lean model)."""
 import collections
+import subprocess
 from vlib.common import *
+from vlib import regen
+
+DRIVER_SKEL = os.path.join(LEAN, ".lake", "build", "bin", "driver_skel")
 
 TRUSTED = [
     "Lean 4.33 kernel; axioms allowed: propext, Classical.choice, Quot.sound",
@@ -9,6 +13,10 @@ TRUSTED = [
     "the scheduler assumes every relevant interleaving point carries a verifhook.Yield or is a Store/Locker/Monitor call",
     "the account locker behind the commander in these runs is scheduler-native and implements the contract proved for DefaultLocker under C15",
     "harness store: durable log + views derived by a fold (the SQL projection is C04's business)",
+    "extract/commander (go/ast translator of internal/engine/command into Generated/Commander.lean): its reading of the Go control flow, its "
+    "table of protocol actions, the rule that a call mentioning none of the commander's resources cannot touch the protocol, and the "
+    "recorded bodies of the primitives (Referencer.take/release, keepUntilTerminated, terminated, Batcher.Append); tied to the running code by "
+    "checking that every observed per-request event sequence is a control path of the skeleton",
 ]
 
 
@@ -362,14 +370,129 @@ def validate_traces(ctx, inputs, impl, components=None):
     return validated
 
 
+def regen_skeleton(ctx):
+    """Re-extract the commander skeleton from the sources of this run; returns True when Generated/Commander.lean exists."""
+    err = None
+    for name, f in regen.GENERATORS:
+        if name == "commander":
+            err = f()
+    if err:
+        ctx.l1_broken.append("extract/commander could not translate internal/engine/command: " + err)
+        ctx.cov["skeleton"] = {"translated": False, "error": err[:600]}
+        return False
+    sm = json.load(open(os.path.join(BUILD, "commander.json")))
+    ctx.cov["skeleton"] = {"translated": True, "entry_points": sm["entry_points"], "functions_inlined": sm["inlined"],
+                           "primitives_checked": sm["primitives_checked"], "actions": sm["actions"], "yield_points": sm["yield_points"],
+                           "conditions": sm["atoms"], "opaque_conditions": sm["opaque_conditions"],
+                           "calls_skipped": len(sm["calls_skipped_as_unable_to_touch_the_protocol"])}
+    return True
+
+
+def skeleton_summary(ctx):
+    """paths / clauses of the regenerated skeleton, evaluated natively (names the failing clauses when Props.Skeleton does not build)"""
+    ok, out = lake_build(["driver_skel"])
+    if not ok:
+        ctx.l2_broken.append({"stream": "driver_skel-build", "detail": out[-1500:]})
+        return False
+    p = subprocess.run([DRIVER_SKEL, "skelsummary"], input='{"id":0}\n', capture_output=True, text=True, timeout=600)
+    try:
+        eps = json.loads(p.stdout.splitlines()[0])["out"]["entry_points"]
+    except Exception:
+        ctx.l2_broken.append({"stream": "driver_skel", "detail": (p.stdout + p.stderr)[-800:]})
+        return False
+    ctx.cov["skeleton"]["paths"] = {e["entry_point"]: e["paths"] for e in eps}
+    ctx.cov["skeleton"]["longest_path"] = max(e["longest"] for e in eps)
+    ctx.cov["skeleton"]["clauses_per_path"] = eps[0]["clauses"]
+    failing = {e["entry_point"]: e["failing_clauses"] for e in eps if e["failing_clauses"]}
+    if failing:
+        ctx.cov["skeleton"]["failing_clauses"] = failing
+        ex = next(e["failing_example"] for e in eps if e["failing_clauses"])
+        ctx.cov["skeleton"]["failing_example"] = ex
+        ctx.l1_broken.append("skeleton well-formedness (Props.Skeleton.wf_generated) fails: " +
+                             "; ".join("%s: %s" % (k, ",".join(v)) for k, v in sorted(failing.items())))
+    return True
+
+
+def validate_skeleton_paths(ctx, inputs, impl):
+    """L2: the own event sequence of every request of every observed run must be a control path of the regenerated skeleton."""
+    path_in, path_out = ctx.path("enginetrace.in.jsonl"), ctx.path("skelpaths.model.jsonl")
+    if not os.path.exists(path_in):
+        return
+    with open(path_in) as fin:
+        p = subprocess.run([DRIVER_SKEL, "skelpaths"], stdin=fin, capture_output=True, text=True, timeout=3000)
+    open(path_out, "w").write(p.stdout)
+    if p.returncode != 0:
+        ctx.l2_broken.append({"stream": "skeleton-paths", "detail": (p.stdout + p.stderr)[-1500:]})
+        return
+    byid = {s["id"]: s for s in inputs}
+    plans_of = {s["id"]: (impl[s["id"]].get("plans") or s["plans"]) for s in inputs if "runs" in impl.get(s["id"], {})}
+    n, bad = 0, 0
+    for r in read_jsonl(path_out):
+        out = r["out"]
+        if "driver_error" in out:
+            ctx.l2_broken.append({"stream": "skeleton-paths", "id": r["id"], "detail": out["driver_error"]})
+            continue
+        for k, run in enumerate(out["runs"]):
+            n += run["requests"]
+            for b in run["not_a_path"]:
+                bad += 1
+                if bad <= 3:
+                    scn = byid[r["id"]]
+                    ctx.l2_broken.append({"stream": "skeleton-paths", "id": r["id"], "actor": b["actor"], "entry_point": b["entry_point"],
+                                          "why": "the events of this request are not a control path of the regenerated skeleton",
+                                          "observed": b["observed"], "input": dict(scn, plans=[plans_of[r["id"]][k]])})
+    ctx.cov["skeleton"]["request_sequences_checked_against_paths"] = n
+    ctx.cov["skeleton"]["not_a_path"] = bad
+
+
+def validate_skeleton_replay(ctx, inputs, impl):
+    """L2: every observed run, replayed in SkelSys (the transition system that interprets the regenerated skeleton), must be a run
+    of it with the same events: ties the meaning given to the skeleton's actions to the running code."""
+    path_in, path_out = ctx.path("enginetrace.in.jsonl"), ctx.path("skelreplay.model.jsonl")
+    if not os.path.exists(path_in):
+        return
+    with open(path_in) as fin:
+        p = subprocess.run([DRIVER_SKEL, "skelreplay"], stdin=fin, capture_output=True, text=True, timeout=3000)
+    open(path_out, "w").write(p.stdout)
+    if p.returncode != 0:
+        ctx.l2_broken.append({"stream": "skeleton-replay", "detail": (p.stdout + p.stderr)[-1500:]})
+        return
+    byid = {s["id"]: s for s in inputs}
+    plans_of = {s["id"]: (impl[s["id"]].get("plans") or s["plans"]) for s in inputs if "runs" in impl.get(s["id"], {})}
+    n, ev, bad = 0, 0, 0
+    for r in read_jsonl(path_out):
+        out = r["out"]
+        if "driver_error" in out:
+            ctx.l2_broken.append({"stream": "skeleton-replay", "id": r["id"], "detail": out["driver_error"]})
+            continue
+        for k, run in enumerate(out["runs"]):
+            if impl[r["id"]]["runs"][k].get("watchdog"):
+                continue
+            n += 1
+            ev += run["events"]
+            if run["mismatch"]:
+                bad += 1
+                if bad <= 3:
+                    scn = byid[r["id"]]
+                    ctx.l2_broken.append(dict(run["mismatch"], stream="skeleton-replay", id=r["id"], input=dict(scn, plans=[plans_of[r["id"]][k]])))
+    ctx.cov["skeleton"]["runs_replayed_in_the_interpreted_skeleton"] = n
+    ctx.cov["skeleton"]["events_reproduced"] = ev
+    ctx.cov["skeleton"]["replay_mismatches"] = bad
+
+
 def run_check(ctx, prop, components, nontrivial, rule, quick_n=120, thorough_n=1500):
     ctx.cov["trusted_base"] = TRUSTED
-    ctx.l1()
+    have_skel = regen_skeleton(ctx)
+    ctx.l1(extra=["Skeleton", "SkeletonRef", "SkeletonEvents", "SkeletonGuard"])
+    have_skel = have_skel and skeleton_summary(ctx)
     r = run_engine(ctx, quick_n if ctx.quick else thorough_n)
     if r is None:
         return
     inputs, impl, _ = r
     validate_traces(ctx, inputs, impl, components)
+    if have_skel:
+        validate_skeleton_paths(ctx, inputs, impl)
+        validate_skeleton_replay(ctx, inputs, impl)
     runs, nt = evaluate(ctx, prop, inputs, impl, nontrivial)
     ctx.cov["evaluations"] = runs
     ctx.cov["scenarios"] = len(inputs)
